@@ -10,6 +10,10 @@ CLAIMED = {
          "Every one of the ~5200 obligations (each knownMsgNums key, each _fields row, each constructor value, each container member, all 256 base-type bytes, all 512 types.Fit codes) is enumerated from the source and discharged; the space is finite and visible in the source, so exhaustive enumeration is a proof of the table-level statement.",
          "Trusted: go/types; the independent FIT base-type table in checker/c15.go; the SSA transfer functions of checker/eval.go; documented reflect panic conditions. Not decided: agreement of field numbers with SDK 21.115 (workbook not in the repository).",
          "DESIGN.md 4 C15"),
+ "C06": ("other", "encoder-definition x validator agreement (exact folding of validateFieldDef over every definition Encode can emit for every hosted profile row), inverse-conversion shape rules on SSA/syntax for time, local time and coordinates, string clamp/terminator pairing, array-padding rules, unset-field flow rule",
+         "Decides structural necessary conditions that tie Encode and Decode together and are claimed nowhere else: every definition the encoder can emit for a hosted field is accepted by the decoder's validator for that very row; the per-kind conversions of the two halves are inverse shapes; strings are clamped/terminated as the decoder scans them; short arrays are padded with the invalid value the decoder's element count and invalid table agree with; no message reaches a container other than through File.add. Breaking any of these breaks the round trip for some in-domain File. Field-for-field equality itself is a statement about run-time values and is NOT decided.",
+         "Trusted: exact folding of validateFieldDef (checker/eval.go); time.Time Zone/In/FixedZone semantics; results of C15 (tables) and C17 (coordinate constructors). Not decided: value equality over Files; the component rule (C18) and timestamps over sequences (C12).",
+         "DESIGN.md 4 C06"),
  "C20": ("proof", "shape matching of all generated String methods (3 stringer shapes) + decoding of their constant tables, compared with the package's constants from go/types",
          "For each of the 176 generated String methods the relation value->substring denoted by the tables is computed for the complete table domain and compared with every constant of the type; the fall-through arm and case-range disjointness cover all remaining values of the type, so the statement is decided for every value, not a sample.",
          "Trusted: go/types constant values; Go semantics of switch/slice/map lookup; strconv.FormatInt. A String method that matches none of the three shapes is reported as undecided (fail closed). Not decided: byte identity with the stringer's output (needs the generator to run).",
@@ -85,7 +89,6 @@ CLAIMED = {
 }
 
 NOT_APPLICABLE = {
- "C06": "Round-trip value equality over run-time contents of arbitrary Files: no static argument in reach bounds the values; its structural prerequisites (tables, size agreement, encodability, byte order/sign rules) are decided under C15, C05, C07, C02 and claiming them twice would decide nothing new.",
 }
 
 ALL = ["C%02d" % i for i in range(1, 21)]
